@@ -117,6 +117,7 @@ func cmdRun(args []string) int {
 	maxConc := fs.Int("max-conc", 0, "")
 	maxDepth := fs.Int("max-depth", 0, "")
 	maxSteps := fs.Int("max-steps", 0, "")
+	dedup := fs.String("dedup", "", "1 = merge identical states reached on different schedules (canonical state digest; measured slower than re-exploring on the current harnesses)")
 	preempt := fs.Int("preempt", -1, "")
 	timeout := fs.Int("timeout-ms", 0, "")
 	solver := fs.String("solver", "z3-new -in", "")
@@ -163,6 +164,7 @@ func cmdRun(args []string) int {
 		opt.TimeoutMs = *timeout
 	}
 	opt.Preempt = *preempt
+	opt.Dedup = *dedup == "1"
 	if *paramsJ != "" && *paramsJ != "null" {
 		json.Unmarshal([]byte(*paramsJ), &opt.Params)
 	}
